@@ -1,7 +1,7 @@
 (* C06 — Fock-basis enumeration and index functions are mutually inverse.
    Only statements closed by [exact]; proofs live in Comb/. *)
 From Coq Require Import ZArith List Sorted.
-From PV Require Import Comb.FockModel Comb.Binom Comb.FockProofs Comb.FermiModel Comb.FermiProofs.
+From PV Require Import Comb.FockModel Comb.Binom Comb.FockProofs Comb.PartitionsProofs Comb.FermiModel Comb.FermiProofs.
 Import ListNotations.
 Open Scope Z_scope.
 
@@ -76,6 +76,17 @@ Theorem C06_vectorised_index : forall v,
   Z.of_nat (length v) < 2^31 -> fock_index_arr v = Some (fock_index v).
 Proof. exact fock_index_arr_spec. Qed.
 Print Assumptions C06_vectorised_index.
+
+(* the iterative separator walk of `partitions` (the code's loop, rows written from the last
+   index downwards) produces exactly the recursive enumeration, for every number of boxes >= 1
+   and every particle number; hence the iteratively built basis is the specified one *)
+Theorem C06_partitions_refines : forall b n, partitions (S b) n = sector (S b) n.
+Proof. exact partitions_refines. Qed.
+Print Assumptions C06_partitions_refines.
+
+Theorem C06_basis_iter_refines : forall d c, basis_iter (S d) c = basis (S d) c.
+Proof. exact basis_iter_refines. Qed.
+Print Assumptions C06_basis_iter_refines.
 
 (* ---- fermionic: 0/1 occupations ---- *)
 (* the fermionic basis (recursive order: n ones, 1 before 0) lists exactly the 0/1 vectors
